@@ -14,6 +14,13 @@ type rdriver struct {
 	s        *script
 	rng      *rand.Rand
 	sessions int
+	// silent: clients that have "vanished" and the step at which they
+	// come back (so that the lease of one client runs out while the
+	// others stay active).
+	silent map[*clientC]int
+	stepNo int
+	// requests held inside a leaf (TestRandomInFlight only)
+	holds []*rhold
 }
 
 var (
@@ -170,6 +177,10 @@ func (d *rdriver) rangeOp(o *Op) *Op {
 		o.RK, o.S, o.E = "overflow", 1+d.pick(nPos-1), nPos
 	case r < 14:
 		o.RK, o.S, o.E = "exact", 1+d.pick(nPos-1), nPos
+	case r < 19:
+		o.RK, o.S, o.E = "last", nPos, nPos
+	case r < 21:
+		o.RK, o.S, o.E = "last1", nPos, nPos
 	}
 	o.LT = []string{"R", "W", "R", "W", "RW", "WW"}[d.pick(6)]
 	if d.chance(2) {
@@ -341,9 +352,32 @@ func (d *rdriver) compound(c *clientC) []*Op {
 	return []*Op{putroot(), lookup(allNames[d.pick(3)]), getfh()}
 }
 
+// pickClient chooses a client that has not vanished.
+func (d *rdriver) pickClient() *clientC {
+	s := d.s
+	var awake []*clientC
+	for _, c := range s.clients {
+		if until, ok := d.silent[c]; !ok || until <= d.stepNo {
+			awake = append(awake, c)
+		}
+	}
+	if len(awake) == 0 {
+		awake = s.clients
+	}
+	return awake[d.pick(len(awake))]
+}
+
 func (d *rdriver) step() {
 	s := d.s
-	c := s.clients[d.pick(len(s.clients))]
+	d.stepNo++
+	if d.chance(2) {
+		// One client vanishes for a while.
+		if d.silent == nil {
+			d.silent = map[*clientC]int{}
+		}
+		d.silent[s.clients[d.pick(len(s.clients))]] = d.stepNo + 20 + d.pick(40)
+	}
+	c := d.pickClient()
 	switch r := d.pick(100); {
 	case r < 4: // client management
 		switch d.pick(6) {
@@ -409,19 +443,24 @@ func (d *rdriver) step() {
 		if d.chance(50) {
 			s.doOn(c, sn, d.pick(nSlots), true, putfh(oc.fh), closeOp(oc.sid))
 		}
-	case r < 11:
-		t := 1 + d.pick(4)
-		if d.chance(12) {
+	case r < 15:
+		t := 1 + d.pick(6)
+		if d.chance(8) {
 			t = leaseTicks + 1 + d.pick(3)
 		}
 		s.e.advance(t)
-	case r < 20: // retransmission, false retry, misordered
+	case r < 24: // retransmission, false retry, misordered
 		if len(c.sess) == 0 {
 			return
 		}
 		sn := d.pick(len(c.sess))
 		slot := d.pick(nSlots)
 		sl := &c.sess[sn].slots[slot]
+		if d.slotHeld(sl) {
+			// (a request with the sequence ID of the one in flight would
+			// wait for it: those are sent by dupOne)
+			return
+		}
 		switch k := d.pick(10); {
 		case k < 4 && sl.last != nil: // identical
 			s.resend(c, sn, slot, sl.last.seq, sl.last.cache, sl.last.ops...)
